@@ -273,9 +273,14 @@ pub fn judge_churn(case: &ChanCase, run: &ChanRun) -> Option<(String, String)> {
         }
     }
     if case.kind.is_ogre_arc() {
+        // a copy enqueued into a departed listener's queue after that queue was emptied stays there -- its pool slot occupied -- until a new listener
+        // takes the id (and then yields an event sent before it existed): found by fresh listeners on every vacant id, before the capacity probe
+        if let Some(v) = run.stale_after_recycling.first() {
+            return Some((format!("{k}/stale-copy-left-in-a-departed-listener's-queue"), format!("after the run a fresh listener on a recycled stream id yielded {} (sent before it existed): a copy enqueued into the departed listener's queue after it was emptied, its payload storage occupied until then ({} such); history: {}", payload::show(*v), run.stale_after_recycling.len(), run.render())));
+        }
         if let Some(n) = run.capacity_probe {
             if n != case.buffer as u32 {
-                return Some((format!("{k}/storage-leaked"), format!("after every event was consumed and released, only {n} of BUFFER_SIZE={} further sends were accepted: payload storage stays occupied; history: {}", case.buffer, run.render())));
+                return Some((format!("{k}/storage-leaked"), format!("after every event was consumed and released (the queues of vacant stream ids included), only {n} of BUFFER_SIZE={} further sends were accepted: payload storage stays occupied for good; history: {}", case.buffer, run.render())));
             }
         }
     }
@@ -306,7 +311,7 @@ impl Property for C17Churn {
     fn decode(&self, u: &mut arbitrary::Unstructured<'_>) -> Option<ChanCase> { crate::props::uni::decode_chan(u, &Gen { kinds: &MULTI_KINDS, max_streams: &[4], buffers: &[8], max_producers: 1, max_ops: 6, max_consumers: 4, min_consumers: 3, churn: true, origins: true, ..Default::default() }) }
     fn cases(&self, tier: Tier) -> u32 { match tier { Tier::Quick => 24_000, Tier::Thorough => 240_000 } }
     fn run(&self, case: &ChanCase) -> RunReport {
-        let run = execute(case, Epilogue { drain: true, capacity_probe: case.kind.is_ogre_arc(), ..Default::default() });
+        let run = execute(case, Epilogue { drain: true, capacity_probe: case.kind.is_ogre_arc(), recycle_drain: case.kind.is_ogre_arc(), ..Default::default() });
         // the live-list *mutation window* of a listener creation / removal -- from the entry of create_stream_id() / report_stream_dropped() (before the
         // running count changes) to the end of the list rebuild -- overlapped a send. (Known finding R8 is exactly this overlap; what a removal does
         // before it reports the stream as dropped, or a creation after the rebuild, is outside the window.)
